@@ -1,7 +1,7 @@
 (* Entry points evaluated by the generated Run/Cases_*.v files. *)
 From Coq Require Import ZArith QArith Qcanon List Bool.
 From Coq Require PrimFloat.
-From RV Require Import Base.Num Base.Vec Expr Rows Ocp Mech.Grid Mech.Intg Mech.Sampling Mech.Shooting Mech.Colloc Mech.Sample Inst.
+From RV Require Import Base.Num Base.Vec Expr Rows Ocp Mech.Grid Mech.Intg Mech.Sampling Mech.Shooting Mech.Colloc Mech.Sample Mech.Refine Inst.
 Import ListNotations.
 
 Section Conv.
@@ -78,6 +78,14 @@ End Conv.
 Definition run_shooting_float := @run_any _ FloatOps.
 Definition run_coeffs_float := @run_coeffs _ FloatOps.
 Definition run_samples_float := @run_samples _ FloatOps.
+
+(* refined integrator sampling and the sampler function *)
+Definition run_fine_float (oc : ocp) (specs : list (nat * list expr)) (sspecs : list (list expr * list Q))
+           (pq : point Q) :=
+  let pt := @point_of_Q _ FloatOps pq in
+  let L := @lists_any _ FloatOps oc pt in
+  (map (fun s => @sample_fine _ FloatOps L (snd s) (fst s)) specs,
+   map (fun s => map (fun t => @sampler_at _ FloatOps PrimFloat.leb L (fst s) (@of_Q _ FloatOps t)) (snd s)) sspecs).
 Definition qc_out (q : Qc) : Z * positive := (Qnum (this q), Qden (this q)).
 
 Definition q (n : Z) (d : positive) : Q := Qmake n d.
